@@ -569,6 +569,8 @@ def _layout(c):
 def _from_buffer(c, obj):
     if isinstance(obj, PayloadBuf):
         return obj.materialise(c)
+    if hasattr(obj, "shadow_from_buffer"):      # a slice of the manager's receive view (engine.mgrworld.PayloadSlice)
+        return obj.shadow_from_buffer(c)
     if isinstance(obj, c):
         return obj
     if hasattr(obj, "_shadow_keys"):
